@@ -15,3 +15,17 @@ package qr
 //@   attr fresh_result eccCount 0 256
 //@   requires ec != nil
 //@   ensures fresh(result) && len(result) == eccCount
+
+// ---------------------------------------------------------------- bit stream construction (C01, C10)
+// data capacity of a version/level row and the width of the character count field (ISO 18004)
+//@ define qrCap(vi *versionInfo) int = vi.NumberOfBlocksInGroup1 * vi.DataCodeWordsPerBlockInGroup1 + vi.NumberOfBlocksInGroup2 * vi.DataCodeWordsPerBlockInGroup2
+//@ define qrCCB(vi *versionInfo, m int) int = (m == 1) ? ((vi.Version < 10) ? 10 : ((vi.Version < 27) ? 12 : 14)) : ((m == 2) ? ((vi.Version < 10) ? 9 : ((vi.Version < 27) ? 11 : 13)) : ((m == 4) ? ((vi.Version < 10) ? 8 : 16) : ((m == 8) ? ((vi.Version < 10) ? 8 : ((vi.Version < 27) ? 10 : 12)) : 0)))
+//@ define qrRow(vi *versionInfo) bool = vi != nil && 1 <= vi.Version && vi.Version <= 40 && 9 <= qrCap(vi) && qrCap(vi) <= 2956
+
+// the search returns a row of the table of the requested level that holds the bits (that it is the
+// FIRST such row, i.e. the smallest version, is proved by the unwinding family "select")
+//@ func findSmallestVersionInfo
+//@   attr init_tables qr.versionInfo
+//@   requires 0 <= dataBits && dataBits <= 100000000 && (mode == 1 || mode == 2 || mode == 4 || mode == 8)
+//@   ensures result != nil ==> qrRow(result) && result.Level == ecl && qrCap(result) * 8 >= dataBits + 4 + qrCCB(result, mode)
+//@   loop 1 invariant dataBits == dataBits0 + 4 && -1 <= rangeindex
